@@ -98,7 +98,7 @@ int main (int argc, char **argv) {
 	fresh = argc > 8 && atoi (argv[8]);
 	if (nobj > 7 || nth > 31) return 2;
 	vtm_init (nth + 1);
-	p_libsys_init ();
+	p_libsys_init (); p_libsys_shutdown (); p_libsys_init ();      /* the library is used after a shutdown / re-initialisation cycle */
 	vtm_open (base, 0);
 	for (i = 1; i <= nobj; i++) {
 		if (kind[0] == 'm') mx[i] = p_mutex_new (); else if (kind[0] == 's') sp[i] = p_spinlock_new (); else rw[i] = p_rwlock_new ();
